@@ -267,6 +267,16 @@ def c13(ctx, e):
             if u["id"] == oid and u["action"] == "RETRY" and (not isinstance(u.get("delay"), int) or u["delay"] < 1):
                 ctx.violation("continue-delay", f"{path}: continue decision recorded with delay {u.get('delay')!r}", scen_of(e))
                 return
+        # a continue decision is durably recorded before the invocation suspends: an invocation that reported PENDING after the
+        # wait strategy said "continue" must have had the RETRY record for that poll accepted by the backend
+        by_inv = {r.inv: r for r in e.invocations}
+        for (inv, attempt, cont, _delay) in e.rec.strategy_calls.get(path, []):
+            r = by_inv.get(inv)
+            if cont and r is not None and r.outcome == "PENDING":
+                if not any(u["id"] == oid and u["action"] == "RETRY" and u["inv"] == inv for u in e.backend.stream):
+                    ctx.violation("continue-not-recorded", f"{path}: invocation {inv} suspended after poll {attempt} said continue, but no RETRY "
+                                  f"record reached the backend in that invocation (backend status {rec['Status'] if rec else None})", scen_of(e))
+                    return
         # stops exactly when told: number of the last poll == polls (unless it failed earlier)
         if rec and rec["Status"] == "SUCCEEDED":
             last = max(p[1] for p in polls) if polls else 0
@@ -313,8 +323,10 @@ def c14(ctx, e):
             st = rec["Status"]
             if st == "SUCCEEDED":
                 ok = kind == "value"
-                if ok and n["k"] == "cb" and rec.get("_result") is not None and repr(rec["_result"]) not in rep and str(rec["_result"]) not in rep:
-                    ok = False
+                if ok and n["k"] == "cb" and not n.get("serdes"):
+                    # no serdes configured: result() returns exactly the delivered payload string (None when none was delivered)
+                    from harness.interp import typed_repr
+                    ok = rep == typed_repr(rec.get("_result"))
                 if not ok:
                     ctx.violation("outcome-unfaithful", f"{n['k']} {path}: backend SUCCEEDED({str(rec.get('_result'))[:40]}) but delivered {kind} {rep[:60]}",
                                   scen_of(e))
